@@ -60,6 +60,8 @@ def comment_for(cfg):
         parts.append("unmatched-mode: keep")
     if cfg["noRun"]:
         parts.append("run-mode: no-run")
+    if cfg.get("noDefaultPrint"):
+        parts.append("print-mode: no-default")
     return " ".join(parts) if parts else None
 
 
@@ -99,7 +101,7 @@ def run_case(case, method="collect"):
             events.append(s)
 
     p._consider_line = wrapped
-    with scratch.silence():
+    with scratch.silence() as sbuf:
         try:
             if method == "collect":
                 lines = p.collect(text) if nexts <= 0 else p.collect(text, nexts=nexts)
@@ -126,6 +128,8 @@ def run_case(case, method="collect"):
             "match_count": p.match_count,
             "scan_count": p.scan_count,
             "printed": [txt(s) for s in cap.lines],
+            "checkStdout": not raised and not any("\n" in x for x in cap.lines),
+            "stdout": [txt(x) for x in sbuf.getvalue().split("\n")[:-1]] if not raised else [],
             "checkLines": lines is not None and not raised,
             "lines": [[txt(c) for c in l] for l in (lines or [])] if not raised else [],
             "headers": [txt(h) for h in (p.headers or [])] if p.scanner is not None else [],
@@ -149,6 +153,7 @@ def run_case(case, method="collect"):
     info["returned"] = ret_idx
     info["events"] = [{"k": e["k"], "ret": e["ret"], "votes": e["votes"], "vars": repr(e["vars"])[:300], "sc": e["scan_count"], "mc": e["match_count"], "stopped": e["stopped"], "adv": e["advance"], "valid": e["valid"], "printed": e["printed"]} for e in events]
     case["prog"].setdefault("meta", [])
+    case["cfg"].setdefault("noDefaultPrint", False)
     rec = {
         "tid": case["tid"],
         "prog": strip_private(case["prog"]),
